@@ -63,6 +63,7 @@ class AsyncHTTP2Connection(AsyncConnectionInterface):
         self._write_lock = AsyncLock()
         self._sent_connection_init = False
         self._used_all_stream_ids = False
+        self._hpack_state_invalid = False
         self._connection_error = False
 
         # Mapping from stream ID to response stream events.
@@ -253,7 +254,21 @@ class AsyncHTTP2Connection(AsyncConnectionInterface):
             )
         ]
 
-        self._h2_state.send_headers(stream_id, headers, end_stream=end_stream)
+        if self._hpack_state_invalid:
+            # An earlier header block was refused half way through encoding
+            # it: nothing of this request has been sent, it can go elsewhere.
+            raise ConnectionNotAvailable()
+
+        try:
+            self._h2_state.send_headers(stream_id, headers, end_stream=end_stream)
+        except h2.exceptions.ProtocolError:
+            # h2 validates a header block while it HPACK-encodes it, so a
+            # refused block may already have changed the encoder's dynamic
+            # table although nothing of it is sent, and the peer's table no
+            # longer matches. Open streams can carry on, but no further
+            # header block may be encoded on this connection.
+            self._hpack_state_invalid = True
+            raise
         self._h2_state.increment_flow_control_window(2**24, stream_id=stream_id)
         await self._write_outgoing_data(request)
 
@@ -429,7 +444,7 @@ class AsyncHTTP2Connection(AsyncConnectionInterface):
                 if self._keepalive_expiry is not None:
                     now = time.monotonic()
                     self._expire_at = now + self._keepalive_expiry
-                if self._used_all_stream_ids:  # pragma: nocover
+                if self._used_all_stream_ids or self._hpack_state_invalid:
                     await self.aclose()
 
     async def aclose(self) -> None:
@@ -529,6 +544,7 @@ class AsyncHTTP2Connection(AsyncConnectionInterface):
             self._state != HTTPConnectionState.CLOSED
             and not self._connection_error
             and not self._used_all_stream_ids
+            and not self._hpack_state_invalid
             and not (
                 self._h2_state.state_machine.state
                 == h2.connection.ConnectionState.CLOSED
